@@ -8,6 +8,7 @@ import (
 	"net/netip"
 	"slices"
 	"strings"
+	"sync"
 
 	"github.com/cilium/statedb"
 
@@ -129,6 +130,7 @@ type Sim struct {
 	initFns, newInitFns          []initFn // done functions of committed / this transaction's registrations
 	nextInit                     int
 	foreign                      int // divergences seen that belong to other checks' classes
+	regMu                        sync.Mutex
 	wseqs                        []*wseq
 	rem                          *remote
 	remoteChecks                 int
